@@ -25,7 +25,7 @@ FROZEN = {
         "staged revisions of one tree (HashMap) -> change-record array of the block: block bytes only; apply_delta / replay_stage insert by revision (C01/L1)",
     "melda::Melda::stage::{closure#0}|hash|push(changes)":
         "stage export: same as commit; replay_stage adds each record by key",
-    "datastorage::DataStorage::pack|hash|assign(remaining),assign(start),extend_from_slice(buf),push(buf)":
+    "datastorage::DataStorage::pack|hash|assign(start),extend_from_slice(buf),push(buf)":
         "staged objects (HashMap) -> pack bytes: readers index every object by its own digest (C10/H4), never by position",
     "melda::Melda::meld::{closure#2}|hash|push(result)":
         "HashSet of foreign item names -> the list of copied names returned by meld: informational, not replica state",
@@ -116,6 +116,22 @@ def analyse_region(facts, body, blocks, is_closure):
                     # commutative fold? (max under a total order)
                     fold = any(lit.kind == "call" and callee_name(lit.term) in ("gt", "lt", "ge", "le", "is_none_or", "max", "min")
                                for lit in lits_of(body, bi, facts))
+                    # idempotent / commutative accumulations: x = const, x += const, x |= .., counters
+                    rt = du.rvalue_term(st.rv, 4)
+                    while rt[0] in ("var", "field") and rt[0] == "field":
+                        rt = rt[1]
+                    if rt[0] == "const":
+                        fold = True
+                    if rt[0] == "binop" and rt[1].split("With")[0] in ("Add", "Sub", "BitOr", "BitAnd", "BitXor", "Mul") and \
+                            any(x[0] == "const" for x in (rt[2], rt[3])):
+                        fold = True
+                    if st.rv.kind == "use" and st.rv.operands()[0].place is not None and st.rv.operands()[0].place.proj:
+                        # `x = move (tmp.0)` of a checked arithmetic op on x itself with a constant
+                        src = st.rv.operands()[0].place.local
+                        for d in du.defs.get(src, []):
+                            if d.kind == "assign" and d.rv.kind == "binop" and d.rv.j["op"].split("With")[0] in ("Add", "Sub", "Mul") and \
+                                    any(o.is_const() for o in d.rv.operands()):
+                                fold = True
                     if not fold:
                         sinks.append("assign(%s)" % nm)
     return sorted(set(sinks))
